@@ -1,8 +1,10 @@
 """C37 — both sides of a bidirectional relationship always agree (bounded run-time contract check, class B).
 
 Functions driven (real, from the tree under test): every public mutator of either side of a `back_populates` pair —
-`InstrumentedList.append / remove / insert / pop / __setitem__ (int and slice) / __delitem__ / clear / extend`,
-collection replacement (`_CollectionAttributeImpl.set` -> `collections.bulk_replace`), scalar set / set None / `del`
+`InstrumentedList.append / remove / insert / pop / __setitem__ (int and slice) / __delitem__ / clear / extend / __iadd__`,
+collection replacement (`_CollectionAttributeImpl.set` -> `collections.bulk_replace`), augmented assignment `x.coll += [...]`
+(`__iadd__` then `set` with the collection itself), deletion of the whole collection attribute `del x.coll`
+(`_CollectionAttributeImpl.delete` -> `CollectionAdapter.clear_with_event`) on every collection side, scalar set / set None / `del`
 (`_ScalarObjectAttributeImpl.set / delete`) — which reach the three closures of `attributes._backref_listeners`
 (`emit_backref_from_scalar_set_event`, `emit_backref_from_collection_append_event`,
 `emit_backref_from_collection_remove_event`).
@@ -71,6 +73,8 @@ def _catalogue(family):
             add(f"del p{pi}.children[0:2]", lambda e, pi=pi: e["p"][pi].children.__delitem__(slice(0, 2)), ("p", pi))
             add(f"p{pi}.children.clear()", lambda e, pi=pi: e["p"][pi].children.clear(), ("p", pi))
             add(f"p{pi}.children.extend([c1,c2])", lambda e, pi=pi: e["p"][pi].children.extend([e["c"][1], e["c"][2]]), ("p", pi), ("c", 0), ("c", 1), ("c", 2))
+            add(f"del p{pi}.children", lambda e, pi=pi: delattr(e["p"][pi], "children"), ("p", pi))
+            add(f"p{pi}.children+=[c0,c2]", lambda e, pi=pi: _iadd(e["p"][pi], "children", [e["c"][0], e["c"][2]]), ("p", pi), ("c", 0), ("c", 1), ("c", 2))
         for ci in range(NC):
             add(f"c{ci}.parent=None", lambda e, ci=ci: setattr(e["c"][ci], "parent", None), ("c", ci))
             add(f"del c{ci}.parent", lambda e, ci=ci: delattr(e["c"][ci], "parent"), ("c", ci))
@@ -97,13 +101,23 @@ def _catalogue(family):
             add(f"l{li}.rights[0:1]=[r1]", lambda e, li=li: e["l"][li].rights.__setitem__(slice(0, 1), [e["r"][1]]), ("l", li), ("r", 0), ("r", 1))
             add(f"l{li}.rights.pop()", lambda e, li=li: e["l"][li].rights.pop(), ("l", li))
             add(f"l{li}.rights.clear()", lambda e, li=li: e["l"][li].rights.clear(), ("l", li))
+            add(f"del l{li}.rights", lambda e, li=li: delattr(e["l"][li], "rights"), ("l", li))
+            add(f"l{li}.rights+=[r0,r1]", lambda e, li=li: _iadd(e["l"][li], "rights", [e["r"][0], e["r"][1]]), ("l", li), ("r", 0), ("r", 1))
         for ri in range(NR):
             add(f"r{ri}.lefts=[l1]", lambda e, ri=ri: setattr(e["r"][ri], "lefts", [e["l"][1]]), ("r", ri), ("l", 0), ("l", 1))
             add(f"del r{ri}.lefts[0]", lambda e, ri=ri: e["r"][ri].lefts.__delitem__(0), ("r", ri))
             add(f"r{ri}.lefts[0]=l1", lambda e, ri=ri: e["r"][ri].lefts.__setitem__(0, e["l"][1]), ("r", ri), ("l", 0), ("l", 1))
+            add(f"del r{ri}.lefts", lambda e, ri=ri: delattr(e["r"][ri], "lefts"), ("r", ri))
     else:
         raise KeyError(family)
     return ops
+
+
+def _iadd(obj, attr, items):
+    """the statement `obj.attr += items`: read the collection, list.__iadd__ on it, assign the result back to the attribute"""
+    coll = getattr(obj, attr)
+    coll += items
+    setattr(obj, attr, coll)
 
 
 _CAT = {}
@@ -592,8 +606,8 @@ def run(run, tier, seed, args):
         exhaustive=True,
         scope=f"fresh transient objects, no session: one-to-many/many-to-one {NP} parents x {NC} children, {sizes['o2m']} operations; "
               f"one-to-one {NP} parents x {NO} targets, {sizes['o2o']} operations; many-to-many {NL} x {NR}, {sizes['m2m']} operations "
-              f"(append, remove, insert, pop, collection replacement, slice/index assignment, del index/slice, clear, extend, scalar set, "
-              f"set None, del, from either side); ALL sequences of length in {list(mem)} per family, invariant evaluated after every "
+              f"(append, remove, insert, pop, collection replacement, slice/index assignment, del index/slice, clear, extend, += , "
+              f"del of the whole collection attribute (every collection side), scalar set, set None, del of the scalar, from either side); ALL sequences of length in {list(mem)} per family, invariant evaluated after every "
               f"operation; plus flush + expire_all + reload on SQLite :memory: for ALL sequences of length in {list(db)}.  "
               f"PERSISTENT scope (same operation catalogues): objects persistent in a Session over a database holding a relation R0 "
               f"(o2m {R0S['o2m']}, o2o {R0S['o2o']}, m2m {R0S['m2m']} as (parent/left, child/right) pairs, so that collections load "
